@@ -6,10 +6,12 @@ import (
 	"fmt"
 	"os"
 	"path/filepath"
+	"sort"
 	"strings"
 	"time"
 
 	"github.com/chrislusf/seaweedfs/weed/storage/needle"
+	"github.com/chrislusf/seaweedfs/weed/storage/types"
 	"github.com/chrislusf/seaweedfs/weed/util/chunk_cache"
 	"verifharness/hx"
 )
@@ -47,6 +49,15 @@ func genData(r *hx.Rng, n int) []byte {
 	return d
 }
 
+func printable(d []byte) bool {
+	for _, b := range d {
+		if b < 32 || b > 126 || b == '"' {
+			return false
+		}
+	}
+	return true
+}
+
 func coqBytes(d []byte) string { return "(B " + hx.Str(string(d)) + ")" }
 
 type layerSpec struct {
@@ -56,40 +67,152 @@ type layerSpec struct {
 
 var layers = []layerSpec{{"c0_2", 2}, {"c1_3", 3}, {"c2_2", 2}}
 
-// restart closes the cache, fixes the file timestamps that decide the segment
-// order (newest .dat first) and whether the leveldb index is rebuilt from the
-// .idx (LOG not newer than .idx), and re-opens the directory.
-func restart(r *hx.Rng, c *chunk_cache.TieredChunkCache, dir string, maxEntries, diskUnits, unit int64) (*chunk_cache.TieredChunkCache, string) {
-	c.Shutdown()
-	regen := r.Bool()
-	base := time.Now().Add(-time.Hour).Truncate(time.Second)
+// A restart re-opens the cache directory.  The segment order of a tier (newest
+// .dat first) and, per segment, whether the leveldb index is rebuilt from the .idx
+// (LOG not newer than .idx) depend on file timestamps only.  Modes:
+//
+//	forced  - clean Shutdown, then the harness sets every timestamp (random order,
+//	          an independent rebuild flag per segment)
+//	ties    - as forced, but two segments of a tier get the SAME .dat time
+//	          (sort.Slice keeps load order among equal times)
+//	natural - clean Shutdown, timestamps as the file system left them
+//	crash   - no Shutdown: the directory is copied as it is (timestamps kept), the
+//	          copy is opened; the old instance is shut down afterwards
+//
+// In every mode the harness reads the timestamps back right before re-opening and
+// derives order and flags from what it read.
+const (
+	modeForced = iota
+	modeTies
+	modeNatural
+	modeCrash
+)
+
+var modeNames = []string{"forced", "ties", "natural", "crash"}
+
+func segName(dir string, l layerSpec, id int) string {
+	return filepath.Join(dir, fmt.Sprintf("%s_%d", l.prefix, id))
+}
+
+// readOrders stats the files the way NewOnDiskCacheLayer / isLevelDbFresh will
+func readOrders(dir string) (string, int, int) {
 	var orders []string
+	regens, lost := 0, 0
 	for _, l := range layers {
-		perm := make([]int, l.n)
-		for i := range perm {
-			perm[i] = i
+		type seg struct {
+			id    int
+			mod   time.Time
+			regen bool
 		}
-		for i := l.n - 1; i > 0; i-- {
-			j := r.Intn(i + 1)
-			perm[i], perm[j] = perm[j], perm[i]
-		}
-		ids := make([]uint64, l.n)
-		for rank, id := range perm {
-			ids[rank] = uint64(id)
-			name := filepath.Join(dir, fmt.Sprintf("%s_%d", l.prefix, id))
-			t := base.Add(time.Duration(l.n-rank) * time.Minute)
-			hx.Must(os.Chtimes(name+".dat", t, t))
-			hx.Must(os.Chtimes(name+".idx", base, base))
-			logT := base.Add(10 * time.Minute)
-			if regen {
-				logT = base.Add(-10 * time.Minute)
+		segs := make([]seg, l.n)
+		for id := 0; id < l.n; id++ {
+			name := segName(dir, l, id)
+			st, err := os.Stat(name + ".dat")
+			hx.Must(err)
+			regen := true
+			if lst, err := os.Stat(filepath.Join(name+".ldb", "LOG")); err == nil {
+				ist, err := os.Stat(name + ".idx")
+				hx.Must(err)
+				regen = !lst.ModTime().After(ist.ModTime())
 			}
-			hx.Must(os.Chtimes(filepath.Join(name+".ldb", "LOG"), logT, logT))
+			segs[id] = seg{id, st.ModTime(), regen}
 		}
-		orders = append(orders, hx.NList(ids))
+		sort.SliceStable(segs, func(i, j int) bool { return segs[i].mod.After(segs[j].mod) })
+		var es []string
+		for _, sg := range segs {
+			es = append(es, hx.Pair(hx.N(uint64(sg.id)), hx.Bool(sg.regen)))
+			if sg.regen {
+				regens++
+				if ist, err := os.Stat(segName(dir, l, sg.id) + ".idx"); err == nil && ist.Size() > 0 {
+					lost++ // the record at offset 0 of this segment is dropped by the rebuild
+				}
+			}
+		}
+		orders = append(orders, hx.List(es))
 	}
-	nc := chunk_cache.NewTieredChunkCache(maxEntries, dir, diskUnits, unit)
-	return nc, fmt.Sprintf("Restart %s %s", hx.Bool(regen), strings.Join(orders, " "))
+	return "Restart " + strings.Join(orders, " "), regens, lost
+}
+
+func copyDir(src, dst string) {
+	hx.Must(filepath.Walk(src, func(path string, info os.FileInfo, err error) error {
+		if err != nil {
+			return err
+		}
+		rel, _ := filepath.Rel(src, path)
+		target := filepath.Join(dst, rel)
+		if info.IsDir() {
+			return os.MkdirAll(target, 0755)
+		}
+		if info.Name() == "LOCK" {
+			return os.WriteFile(target, nil, 0644)
+		}
+		b, err := os.ReadFile(path)
+		if err != nil {
+			return err
+		}
+		if err := os.WriteFile(target, b, 0644); err != nil {
+			return err
+		}
+		return os.Chtimes(target, info.ModTime(), info.ModTime())
+	}))
+}
+
+func (h *history) restart(r *hx.Rng, mode int) {
+	switch mode {
+	case modeForced, modeTies:
+		h.c.Shutdown()
+		base := time.Now().Add(-time.Hour).Truncate(time.Second)
+		for _, l := range layers {
+			perm := make([]int, l.n)
+			for i := range perm {
+				perm[i] = i
+			}
+			for i := l.n - 1; i > 0; i-- {
+				j := r.Intn(i + 1)
+				perm[i], perm[j] = perm[j], perm[i]
+			}
+			tie := -1
+			if mode == modeTies {
+				tie = r.Intn(l.n - 1) // ranks tie and tie+1 share a time
+			}
+			for rank, id := range perm {
+				name := segName(h.dir, l, id)
+				slot := l.n - rank
+				if tie >= 0 && rank == tie+1 {
+					slot = l.n - tie
+				}
+				t := base.Add(time.Duration(slot) * time.Minute)
+				hx.Must(os.Chtimes(name+".dat", t, t))
+				hx.Must(os.Chtimes(name+".idx", base, base))
+				logT := base.Add(10 * time.Minute)
+				switch r.Intn(4) {
+				case 0:
+					logT = base.Add(-10 * time.Minute)
+				case 1:
+					logT = base // equal times: not "After", rebuilt
+				}
+				hx.Must(os.Chtimes(filepath.Join(name+".ldb", "LOG"), logT, logT))
+			}
+		}
+	case modeNatural:
+		h.c.Shutdown()
+	case modeCrash:
+		nd, err := os.MkdirTemp("", "c31-")
+		hx.Must(err)
+		copyDir(h.dir, nd)
+		h.c.Shutdown()
+		os.RemoveAll(h.dir)
+		h.dir = nd
+	}
+	op, regens, lost := readOrders(h.dir)
+	h.out.Count("restart:"+modeNames[mode], 1)
+	h.out.Count("restart-segments-rebuilt", regens)
+	h.out.Count("regen-lost-offset0", lost)
+	h.c = chunk_cache.NewTieredChunkCache(h.maxEntries, h.dir, h.diskUnits, h.unit)
+	h.lastIdx = [3]int{-1, -1, -1}
+	h.ops = append(h.ops, op)
+	h.impl = append(h.impl, "[]")
+	h.canon = append(h.canon, modeNames[mode]+":"+op)
 }
 
 type history struct {
@@ -98,17 +221,65 @@ type history struct {
 	c                           *chunk_cache.TieredChunkCache
 	ops, impl, canon            []string
 	hit                         bool
+	out                         *hx.Out
+	geom                        string // VerifGeometry of the first instance
+	lastIdx                     [3]int // per tier: index of the .dat that grew last since the last (re)open, -1 none
+	rotated                     bool
 }
 
-func newHistory(maxEntries, diskUnits, unit int64) *history {
+var tierOf = []int{0, 0, 1, 1, 1, 2, 2}
+
+func newHistory(out *hx.Out, maxEntries, diskUnits, unit int64) *history {
 	dir, err := os.MkdirTemp("", "c31-")
 	hx.Must(err)
-	return &history{maxEntries: maxEntries, diskUnits: diskUnits, unit: unit, dir: dir,
-		c: chunk_cache.NewTieredChunkCache(maxEntries, dir, diskUnits, unit)}
+	c := chunk_cache.NewTieredChunkCache(maxEntries, dir, diskUnits, unit)
+	limits, counts, segLimits := c.VerifGeometry()
+	g := append([]uint64{}, limits...)
+	for _, n := range counts {
+		g = append(g, uint64(n))
+	}
+	for _, l := range segLimits {
+		g = append(g, uint64(l)) // -1 / -2 (no or unequal limits) become huge values no model produces
+	}
+	g = append(g, uint64(types.NeedlePaddingSize))
+	return &history{out: out, lastIdx: [3]int{-1, -1, -1}, maxEntries: maxEntries, diskUnits: diskUnits, unit: unit, dir: dir,
+		c: c, geom: hx.NList(g)}
+}
+
+// datSizes: the sizes of all .dat files (a Reset truncates, a write grows)
+func (h *history) datSizes() []int64 {
+	var out []int64
+	for _, l := range layers {
+		for id := 0; id < l.n; id++ {
+			st, err := os.Stat(segName(h.dir, l, id) + ".dat")
+			if err != nil {
+				out = append(out, -1)
+			} else {
+				out = append(out, st.Size())
+			}
+		}
+	}
+	return out
 }
 
 func (h *history) store(f fid, d []byte) {
+	before := h.datSizes()
 	h.c.SetChunk(f.String(), d)
+	after := h.datSizes()
+	for i := range before {
+		if after[i] != before[i] {
+			t := tierOf[i]
+			if h.lastIdx[t] >= 0 && h.lastIdx[t] != i {
+				// the write went to another volume file than the previous one: the
+				// oldest segment was reset and moved to the front
+				h.out.Count("rotation", 1)
+				h.out.Count(fmt.Sprintf("rotation-tier:%d", t), 1)
+				h.rotated = true
+			}
+			h.lastIdx[t] = i
+			break
+		}
+	}
 	h.ops = append(h.ops, fmt.Sprintf("Store %s %s", f.coq(), coqBytes(d)))
 	h.impl = append(h.impl, "[]")
 	h.canon = append(h.canon, fmt.Sprintf("S%s=%x", f.String(), d))
@@ -125,34 +296,43 @@ func (h *history) get(f fid, minSize uint64) {
 }
 
 func (h *history) getSlice(f fid, off, length uint64) {
-	got := h.c.GetChunkSlice(f.String(), off, length)
+	var got []byte
+	panicked := false
+	func() {
+		defer func() {
+			if e := recover(); e != nil {
+				panicked = true
+			}
+		}()
+		got = h.c.GetChunkSlice(f.String(), off, length)
+	}()
 	h.ops = append(h.ops, fmt.Sprintf("GetSlice %s %s %s", f.coq(), hx.N(off), hx.N(length)))
-	h.impl = append(h.impl, coqBytes(got))
+	switch {
+	case panicked:
+		h.out.Count("getslice-panic", 1)
+		h.impl = append(h.impl, "panic_mark")
+	case printable(got):
+		h.impl = append(h.impl, coqBytes(got))
+	default: // bytes in front of a needle: padding zeros
+		h.impl = append(h.impl, hx.Bytes(got))
+	}
 	h.canon = append(h.canon, fmt.Sprintf("L%s@%d+%d", f.String(), off, length))
 	if len(got) > 0 {
 		h.hit = true
 	}
 }
 
-func (h *history) restart(r *hx.Rng) {
-	var op string
-	h.c, op = restart(r, h.c, h.dir, h.maxEntries, h.diskUnits, h.unit)
-	h.ops = append(h.ops, op)
-	h.impl = append(h.impl, "[]")
-	h.canon = append(h.canon, op)
-}
-
 func (h *history) finish(out *hx.Out, kind string) {
 	h.c.Shutdown()
 	os.RemoveAll(h.dir)
-	term := fmt.Sprintf("{| prm := {| unit_size := %s; disk_units := %s |}; ops := %s; impl := %s |}",
-		hx.N(uint64(h.unit)), hx.N(uint64(h.diskUnits)), hx.List(h.ops), hx.List(h.impl))
+	term := fmt.Sprintf("{| prm := {| unit_size := %s; disk_units := %s |}; geom := %s; ops := %s; impl := %s |}",
+		hx.N(uint64(h.unit)), hx.N(uint64(h.diskUnits)), h.geom, hx.List(h.ops), hx.List(h.impl))
 	out.Add(term, fmt.Sprintf("%d/%d/%d|%s", h.maxEntries, h.diskUnits, h.unit, strings.Join(h.canon, ";")), h.hit, kind)
 }
 
 func main() {
 	out := hx.Flags("C31", 120)
-	out.Rule = "histories of 6-24 (thorough: 8-40) operations (store 45%, GetChunk 32%, GetChunkSlice 10%, restart 13% with harness-chosen segment order and leveldb-rebuild flag) on NewTieredChunkCache(maxEntries in {1,2,4,1000}, scratch dir, diskSizeInUnit in {8,16,32,64}, unitSize in {8,16,24,32}); file ids over volume ids {3,4} x keys {1,2,3,0x1234} x cookies {0x637037d6,0x11111111} in canonical spelling (70% of the histories use one file id per key, 30% any) plus malformed ids; chunk sizes 0 and around unitSize / 4*unitSize (tier limits), min sizes 0/1/stored length/limits; first cases are the fixed witnesses of finding 0; non-trivial = some lookup returned bytes; distinct = canonical parameter + operation list"
+	out.Rule = "histories of 6-24 (thorough: 8-40) operations (store 45%, GetChunk 32%, GetChunkSlice 10%, restart 13%: 40% forced timestamps with a random segment order and an independent leveldb-rebuild flag per segment incl. LOG time = .idx time, 15% forced with two equal .dat times in every tier, 25% natural = clean Shutdown and the timestamps the file system left, 20% crash = no Shutdown, the directory copied as is and the copy opened; order and flags are always read back from the files right before re-opening) on NewTieredChunkCache(maxEntries in {1,2,4,1000}, scratch dir, diskSizeInUnit in {8,16,32,64}, unitSize in {8,16,24,32}); file ids over volume ids {3,4} x keys {1,2,3,0x1234} x cookies {0x637037d6,0x11111111} in canonical spelling (70% of the histories use one file id per key, 30% any) plus malformed ids; chunk sizes 0 and around unitSize / 4*unitSize (tier limits), min sizes 0/1/stored length/limits and (1 in 16) 2^63-1/2^63/2^63+5/2^64-1; slices with offset 0 (2/3) or 1..unit, 1 in 6 with length 2^63-1/2^63/2^64-5/2^64-1 and offset 0/1/5/2^63-1 and 1 in 6 with offset 2^64-{1,3,8,9,17}/2^63/2^63+1 and length 0/1/2/6/10/unit/4*unit/2^63/2^64-1, half of them aimed (offset 2^64-e, length e..e+unit, file id of the latest small store) (run under recover; a panic is the answer panic_mark); first cases are the fixed witnesses of findings 0, 1 and 2; non-trivial = some lookup returned bytes; distinct = canonical parameter + operation list"
 	root := hx.NewRng(out.Seed)
 
 	// ----- fixed witnesses of finding 0 (needle key shared, volume id or cookie differs) -----
@@ -162,25 +342,51 @@ func main() {
 	}
 	// (bin/check runs shard k with seed*1000+k: the first shard of every run carries them)
 	if out.Seed%1000 == 0 {
-		h := newHistory(1000, 16, 16)
+		h := newHistory(out, 1000, 16, 16)
 		h.store(fid{vid: 3, key: 1, cookie: 0x637037d6}, []byte("hello"))
 		h.get(fid{vid: 4, key: 1, cookie: 0x637037d6}, 1)
 		h.finish(out, "fixed-other-volume")
 	}
 	if out.Seed%1000 == 0 {
-		h := newHistory(1000, 16, 16)
+		h := newHistory(out, 1000, 16, 16)
 		h.store(fid{vid: 3, key: 1, cookie: 0x637037d6}, []byte("a chunk that lands in the second disk tier"))
 		h.get(fid{vid: 3, key: 1, cookie: 0x11111111}, 20)
 		h.getSlice(fid{vid: 3, key: 1, cookie: 0x11111111}, 0, 7)
 		h.finish(out, "fixed-other-cookie")
 	}
 	if out.Seed%1000 == 0 {
-		h := newHistory(1000, 16, 16)
+		h := newHistory(out, 1000, 16, 16)
 		h.store(fid{vid: 3, key: 2, cookie: 0x637037d6}, []byte("first"))
 		h.store(fid{vid: 4, key: 2, cookie: 0x637037d6}, []byte("second"))
-		h.restart(hx.NewRng(5))
+		h.restart(hx.NewRng(5), modeForced)
 		h.get(fid{vid: 3, key: 2, cookie: 0x637037d6}, 1)
 		h.finish(out, "fixed-overwritten-by-alias")
+	}
+
+	// ----- fixed witnesses of finding 1 (minimum size from 2^63 on: int(minSize) < 0) -----
+	if out.Seed%1000 == 0 {
+		h := newHistory(out, 1000, 64, 1)
+		f := fid{vid: 3, key: 1, cookie: 0x637037d6}
+		h.store(f, []byte("hello"))
+		h.get(f, 1<<63)
+		h.getSlice(f, 1, 1<<63-1)
+		h.get(f, 6)
+		h.finish(out, "fixed-minsize-2^63")
+	}
+
+	// ----- fixed witness of finding 2 (slice offset from 2^63 on: int(offset) < 0) -----
+	if out.Seed%1000 == 0 {
+		h := newHistory(out, 1000, 64, 8)
+		a := fid{vid: 3, key: 1, cookie: 0x637037d6}
+		b := fid{vid: 3, key: 2, cookie: 0x637037d6}
+		h.store(a, []byte("abcde"))
+		h.store(b, []byte("XYZ"))
+		h.getSlice(b, 1<<64-1, 2) // memory tier: panic
+		h.restart(hx.NewRng(6), modeNatural)
+		h.getSlice(b, 1<<64-4, 6) // disk tier: "e" 0 0 0 "XY"
+		h.getSlice(b, 1<<64-9, 10)
+		h.get(b, 1)
+		h.finish(out, "fixed-offset-2^63")
 	}
 
 	vids := []uint64{3, 4}
@@ -191,7 +397,7 @@ func main() {
 		unit := int64(r.PickInt([]int{8, 16, 24, 32}))
 		diskUnits := int64(r.PickInt([]int{8, 16, 32, 64}))
 		maxEntries := int64(r.PickInt([]int{1, 2, 4, 1000}))
-		h := newHistory(maxEntries, diskUnits, unit)
+		h := newHistory(out, maxEntries, diskUnits, unit)
 		// the file ids of this history
 		var fids []fid
 		kind := "unique-keys"
@@ -211,6 +417,7 @@ func main() {
 		u := int(unit)
 		sizes := []int{0, 1, 3, u - 1, u, u + 1, 2 * u, 4*u - 1, 4 * u, 4*u + 1, 6 * u}
 		var storedLens []int
+		var lastSmall *fid // the file id of the latest store that went to the memory tier
 		nops := r.Range(6, 24)
 		if out.Tier == "thorough" {
 			nops = r.Range(8, 40)
@@ -222,6 +429,10 @@ func main() {
 				n := r.PickInt(sizes)
 				d := genData(r, n)
 				h.store(f, d)
+				if n <= u {
+					g := f
+					lastSmall = &g
+				}
 				storedLens = append(storedLens, n)
 				out.Count("op:store", 1)
 				switch {
@@ -237,19 +448,58 @@ func main() {
 				if len(storedLens) > 0 {
 					mins = append(mins, storedLens[r.Intn(len(storedLens))], storedLens[r.Intn(len(storedLens))], 1, 1)
 				}
-				h.get(f, uint64(r.PickInt(mins)))
+				m := uint64(r.PickInt(mins))
+				if r.Chance(1, 16) {
+					m = r.PickU64([]uint64{1 << 63, 1<<63 + 5, 1<<63 - 1, 1<<64 - 1})
+					out.Count("get-min>=2^63-1", 1)
+				}
+				h.get(f, m)
 				out.Count("op:get", 1)
 			case k < 87:
 				off := uint64(0)
 				if r.Chance(1, 3) {
 					off = uint64(r.Range(1, u))
 				}
-				h.getSlice(f, off, uint64(r.PickInt([]int{0, 1, 3, u, u + 1, 4 * u})))
+				length := uint64(r.PickInt([]int{0, 1, 3, u, u + 1, 4 * u}))
+				if r.Chance(1, 6) {
+					// int(length) negative, offset+length at / across 2^63 and 2^64
+					off = r.PickU64([]uint64{0, 1, 5, 1<<63 - 1})
+					length = r.PickU64([]uint64{1<<63 - 1, 1 << 63, 1<<64 - 5, 1<<64 - 1, 1})
+					out.Count("getslice-huge", 1)
+				} else if r.Chance(1, 6) {
+					// int(offset) negative: panic in the memory tier, bytes in front of the needle on disk
+					off = r.PickU64([]uint64{1<<64 - 1, 1<<64 - 3, 1<<64 - 8, 1<<64 - 9, 1<<64 - 17, 1 << 63, 1<<63 + 1})
+					length = r.PickU64([]uint64{0, 1, 2, 6, 10, uint64(u), uint64(4 * u), 1 << 63, 1<<64 - 1})
+					if r.Chance(1, 2) {
+						// aimed: offset + length wraps to a minimum size within the first tier limit
+						e := r.PickU64([]uint64{1, 3, 8, 9})
+						off = -e
+						length = e + uint64(r.Intn(u+1))
+						if lastSmall != nil && r.Chance(2, 3) {
+							f = *lastSmall
+						}
+					}
+					out.Count("getslice-offset>=2^63", 1)
+				}
+				h.getSlice(f, off, length)
 				out.Count("op:getslice", 1)
 			default:
-				h.restart(r)
+				mode := modeForced
+				switch k := r.Intn(100); {
+				case k < 40:
+				case k < 55:
+					mode = modeTies
+				case k < 80:
+					mode = modeNatural
+				default:
+					mode = modeCrash
+				}
+				h.restart(r, mode)
 				out.Count("op:restart", 1)
 			}
+		}
+		if h.rotated {
+			out.Count("histories-with-rotation", 1)
 		}
 		h.finish(out, kind)
 	}
